@@ -131,6 +131,7 @@ type Machine struct {
 	entPrinted     int
 	bypass         *ssa.Function
 	pathDeadline   time.Time
+	summaries      map[string]value
 }
 
 type Options struct {
@@ -150,6 +151,7 @@ type Options struct {
 	NoDomain     bool // disable the byte-domain front solver
 	Thorough     bool // value of verifrt.Thorough()
 	PathSeconds  int  // wall-clock limit per path (default 120)
+	NoSummaries  bool // disable single-variable summaries by exhaustive evaluation
 	NoModels     bool // run the real code instead of the validated models (model validation harnesses)
 }
 
@@ -171,6 +173,8 @@ type Stats struct {
 	DomainDecided   int
 	IntervalDecided int
 	StaleModels     int
+	Summaries       int
+	SummaryHits     int
 }
 
 type undoRec struct {
@@ -224,6 +228,7 @@ func NewMachine(p *Program, opts Options) (*Machine, error) {
 		funcs:      map[*ssa.Function]int{},
 		dom:        newDomState(),
 		pkgSeen:    map[*ssa.Package]bool{},
+		summaries:  map[string]value{},
 		intrinsicsUsed: map[string]int{},
 	}
 	if rp := p.SSAPkgs["runtime"]; rp != nil {
